@@ -48,3 +48,14 @@ def run(ck, prog):
         else:
             ck.ok(rule, inst, b.path, f"{b.loc[0]}:{b.loc[1]}", f"uses {sorted({u[1] for u in uses})}; intercept added via {add[0][1].split('::')[-1]}")
     ck.floor(rule, 2)
+
+
+_run_pre_builders = run
+
+
+def run(ck, prog):
+    _run_pre_builders(ck, prog)
+    # every setting of the quantifier is reachable through the public builder chain: setters must not clobber other fields
+    from sa.builders import check_builders
+    check_builders(ck, prog, r"^linear::(linear_regression::LinearRegression|ridge_regression::RidgeRegression)Parameters$")
+    ck.floor("E2-builder", 4)
